@@ -352,6 +352,40 @@ func (fnn *fieldNeeds) sitesFor(p *Prog, reach map[*ssa.Function]bool, F *ssa.Fu
 							}
 							continue
 						}
+						// handed to a function that does nothing with it but call it (synchronously): P must
+						// guarantee the need at this call, and the callee must not write the field first
+						if sc := x.Common().StaticCallee(); sc != nil && !x.Common().IsInvoke() {
+							onlyCalled := false
+							for ai, a := range x.Common().Args {
+								if a != ssa.Value(mc) || ai >= len(sc.Params) {
+									continue
+								}
+								onlyCalled = true
+								if refs := sc.Params[ai].Referrers(); refs != nil {
+									for _, pr := range *refs {
+										switch y := pr.(type) {
+										case *ssa.DebugRef:
+										case ssa.CallInstruction:
+											if y.Common().Value != ssa.Value(sc.Params[ai]) {
+												onlyCalled = false
+											}
+										default:
+											onlyCalled = false
+										}
+									}
+								}
+							}
+							if _, isCall := x.(*ssa.Call); onlyCalled && isCall {
+								var A ssa.Value
+								if P.Signature.Recv() != nil && len(P.Params) > 0 {
+									A = P.Params[0]
+								}
+								if A != nil {
+									sites = append(sites, needSite{fn: P, at: x.(ssa.Instruction), A: A, k: k, what: "closure " + qname(F) + " handed to " + qname(sc) + ", which only calls it", call: x})
+									continue
+								}
+							}
+						}
 						bad = append(bad, fmt.Sprintf("closure %s is passed on at %s", qname(F), posOf(p, r)))
 					case *ssa.MapUpdate:
 						// stored in a map literal that P returns
